@@ -143,6 +143,9 @@ MUTANTS["C13"] = [
     M("dict_summary_cp_other", FE, '"CriticalPath": sum([x.latency_cp for x in cp_kernel]),', '"CriticalPath": sum([x.latency for x in cp_kernel]),', "R1"),
     M("text_cp_cell_all_lines", FE, "cp_kernel if line_number in cp_lines else None,", "cp_kernel,", "R1"),
     M("dict_summary_lcd_const", FE, '"LCD": lcd_sum,\n', '"LCD": 0.0,\n', "R1"),
+    M("text_summary_skips_unknown_lines", FE, "            tp_sum = ArchSemantics.get_throughput_sum(kernel)\n            # if ALL instructions are unknown", "            tp_sum = ArchSemantics.get_throughput_sum([i for i in kernel if INSTR_FLAGS.TP_UNKWN not in i.flags])\n            # if ALL instructions are unknown", "R1", "round 4: X-flagged memory forms keep their load pressure"),
+    M("dict_summary_first_lines_only", FE, "        tp_sum = ArchSemantics.get_throughput_sum(kernel) or kernel[0].port_pressure", "        tp_sum = ArchSemantics.get_throughput_sum(kernel[:-1]) or kernel[0].port_pressure", "R1"),
+    M("text_summary_kernel_copy", FE, "            tp_sum = ArchSemantics.get_throughput_sum(kernel)\n            # if ALL instructions are unknown", "            all_lines = list(kernel)\n            tp_sum = ArchSemantics.get_throughput_sum(all_lines)\n            # if ALL instructions are unknown", "SILENT", "a copy of the whole kernel is summed"),
     M("lcd_list_truncated", FE, "        for dep in sorted(dep_dict.keys()):", "        for dep in sorted(dep_dict.keys())[:1]:", "R1"),
     M("dict_other_graph", CLI, "            frontend.full_analysis_dict(\n                kernel,\n                kernel_graph,", "            frontend.full_analysis_dict(\n                parsed_code,\n                kernel_graph,", "R2"),
     M("dict_no_lcd_warning", CLI, "                lcd_warning=kernel_graph.timed_out,\n            ),\n            args.yaml_out,", "                lcd_warning=False,\n            ),\n            args.yaml_out,", "R2"),
@@ -166,6 +169,13 @@ _ATOMIC = ('        tmpfile = cachefile.with_name("{}.{}.tmp.pickle".format(cach
 
 MUTANTS["C17"] = [
     M("revert_fix_in_place_and_unguarded", HW, [_TOLERANT[0], _ATOMIC[0]], [_TOLERANT[1], _ATOMIC[1]], "R6", "revert of the fix"),
+    M("revert_cache_name_with_suffix", HW, 'companion_cachefile = p.with_name("." + p.stem + "_" + hexhash + ".pickle")\n        if companion_cachefile.exists():', 'companion_cachefile = p.with_name("." + p.stem + "_" + hexhash).with_suffix(".pickle")\n        if companion_cachefile.exists():', "R1", "revert of fix cbee139 (reader side)"),
+    M("home_cache_name_with_suffix_both", HW, 'Path(utils.CACHE_DIR) / (p.stem + "_" + hexhash + ".pickle")', '(Path(utils.CACHE_DIR) / (p.stem + "_" + hexhash)).with_suffix(".pickle")', "R1", "revert of fix cbee139 (home, reader)"),
+    M("cache_name_digest_first", HW, 'companion_cachefile = p.with_name("." + p.stem + "_" + hexhash + ".pickle")\n        if companion_cachefile.exists():', 'companion_cachefile = p.with_name("." + hexhash + "_" + p.stem + ".pickle")\n        if companion_cachefile.exists():', "R1", "reader/writer disagree"),
+    M("mkdir_check_then_create", HW, "        try:\n            os.makedirs(cache_dir, exist_ok=True)\n        except OSError:\n            return\n", "        if not cache_dir.is_dir():\n            try:\n                cache_dir.mkdir(parents=True)\n            except PermissionError:\n                return\n", "R7", "round 4: check-then-create race"),
+    M("makedirs_plain", HW, "        try:\n            os.makedirs(cache_dir, exist_ok=True)\n        except OSError:\n            return\n", "        if not os.path.exists(cache_dir):\n            os.makedirs(cache_dir)\n", "R7"),
+    M("mkdir_exist_ok_path_api", HW, "        try:\n            os.makedirs(cache_dir, exist_ok=True)\n        except OSError:\n            return\n", "        try:\n            cache_dir.mkdir(parents=True, exist_ok=True)\n        except PermissionError:\n            return\n", "SILENT", "exist_ok=True tolerates the racing creator"),
+    M("mkdir_fileexists_handler", HW, "        try:\n            os.makedirs(cache_dir, exist_ok=True)\n        except OSError:\n            return\n", "        try:\n            os.makedirs(cache_dir)\n        except FileExistsError:\n            pass\n        except OSError:\n            return\n", "SILENT", "FileExistsError handled"),
     M("tolerant_read_only", HW, _ATOMIC[0], _ATOMIC[1], "SILENT", "tolerant read alone satisfies the rule"),
     M("atomic_publish_only", HW, _TOLERANT[0], _TOLERANT[1], "SILENT", "atomic publish alone satisfies the rule"),
     M("tmp_name_not_unique", HW, [_TOLERANT[0], 'cachefile.with_name("{}.{}.tmp.pickle".format(cachefile.stem, os.getpid()))'],
@@ -174,7 +184,7 @@ MUTANTS["C17"] = [
       [_ATOMIC[1], "            raise\n"], "R6"),
     M("reader_key_by_name", HW, '        p = Path(filepath)\n        hexhash = hashlib.sha256(p.read_bytes()).hexdigest()\n\n        # 1. companion',
       '        p = Path(filepath)\n        hexhash = hashlib.sha256(p.name.encode()).hexdigest()\n\n        # 1. companion', "R1"),
-    M("writer_other_home_name", HW, 'home_cachefile = (cache_dir / (p.stem + "_" + hexhash)).with_suffix(".pickle")', 'home_cachefile = (cache_dir / (p.stem + "-" + hexhash)).with_suffix(".pickle")', "R1"),
+    M("writer_other_home_name", HW, 'home_cachefile = cache_dir / (p.stem + "_" + hexhash + ".pickle")', 'home_cachefile = cache_dir / (p.stem + "-" + hexhash + ".pickle")', "R1"),
     M("version_test_dropped", HW, '            data = self._load_cachefile(home_cachefile)\n            if data is not None and data.get("internal_version") == self.INTERNAL_VERSION:', '            data = self._load_cachefile(home_cachefile)\n            if data is not None:', "R2"),
     M("stamp_after_write", HW, ['                self._data["internal_version"] = self.INTERNAL_VERSION\n', "                    self._write_in_cache(self._path)\n"],
       ["", '                    self._write_in_cache(self._path)\n                self._data["internal_version"] = self.INTERNAL_VERSION\n'], "R2"),
